@@ -1039,7 +1039,7 @@ pub fn check_c17(h: &Hist) -> POut {
             out.violations.push(viol("C17", "R-sets-rejected", cp.seq, "sets_rejected differs from the policy's popularity rejections", format!("sets_rejected={} observed={}", m.sets_rejected, rej)));
         }
         let expect_ratio = if m.hits + m.misses == 0 { 0.0 } else { m.hits as f64 / (m.hits + m.misses) as f64 };
-        if (m.ratio - expect_ratio).abs() > 1e-12 {
+        if !((m.ratio - expect_ratio).abs() <= 1e-12) {
             out.violations.push(viol("C17", "R-ratio", cp.seq, "ratio() differs from hits / (hits + misses)", format!("ratio={} expected={}", m.ratio, expect_ratio)));
         }
         if m.life_count != m.life_bucket_sum || m.life_count > m.keys_evicted {
